@@ -132,6 +132,10 @@ func (c C16Case) build(withFault bool) cli.Tree {
 		"regex-assembly/include/inner.ra":      "inner1\ninner2\n",
 		"crs-setup.conf.example":               "# OWASP CRS ver.4.0.0\n# Copyright (c) 2021-2024 CRS project. All rights reserved.\n",
 		"tests/regression/tests/R/932100.yaml": "---\ntests:\n  - test_id: 1\n",
+		// stray assembly files that are no rule files; they sort before, between and after the rule files
+		"regex-assembly/0-scratch.ra":    "scratch\n",
+		"regex-assembly/932105-draft.ra": "draft\n",
+		"regex-assembly/zz-notes.ra":     "notes\n",
 	}
 	fl := c16FaultLines(c.Fault)
 	for i, tg := range c16Targets {
